@@ -2,6 +2,7 @@ package props
 
 import (
 	"fmt"
+	"strconv"
 	"strings"
 	"testing"
 
@@ -279,14 +280,35 @@ func runC12(c c12Case) (status int, hijacked bool, err error) {
 	if c.NilOpts {
 		opts = nil // the defaults: what an earlier handshake was allowed must not matter
 	}
+	// the list is the application's: a handshake reads it. Compared over its whole capacity - an
+	// append inside the library lands in the spare capacity behind the list, an in-place insert shifts the list
+	full := pats[:cap(pats)]
+	for i := len(pats); i < len(full); i++ {
+		full[i] = "spare-" + strconv.Itoa(i)
+	}
+	before := append([]string(nil), full...)
 	sv, aerr := wsx.AcceptReq(r, opts, nil)
 	if sv.Conn != nil {
 		sv.Conn.CloseNow()
 	}
+	c12LastMutation = ""
+	for i := range full {
+		if full[i] != before[i] {
+			c12LastMutation = fmt.Sprintf("Accept changed the application's OriginPatterns storage: element %d of %d (len %d) was %q and is %q after a handshake with Host %q Origin %q - the allow-list of every later handshake is no longer the configured one", i, len(full), len(pats), before[i], full[i], c.Host, c.Origin)
+			copy(full, before)
+			break
+		}
+	}
 	return sv.W.Code, sv.W.Hijacked, aerr
 }
 
+// c12LastMutation: set by runC12 when the handshake wrote to the caller's pattern storage.
+var c12LastMutation string
+
 func checkC12(c c12Case, status int, hijacked bool) string {
+	if c12LastMutation != "" {
+		return c12LastMutation
+	}
 	upgraded := status == 101 && hijacked
 	if status == 101 != hijacked {
 		return fmt.Sprintf("status %d but hijacked=%v", status, hijacked)
